@@ -59,11 +59,16 @@ Proof.
   now rewrite meta_eta.
 Qed.
 
+(* _replace: the UPDATE of replace() without the commit bookkeeping (the helper insert_many's
+   upsert loop calls since a00ceb1) *)
+Lemma bridge_sq__replace : forall c b i e, gen_sq__replace c b (Some i) e = (sq_replace c b i e, Ok ONone).
+Proof. intros. unfold gen_sq__replace, sq_replace. cbn. now rewrite update_cells. Qed.
+
 Lemma bridge_sq_replace : forall c b i e, gen_sq_replace c b (Some i) e = (sq_replace c b i e, Ok (OBool true)).
-Proof. intros. unfold gen_sq_replace, sq_replace. cbn. now rewrite update_cells. Qed.
+Proof. intros. unfold gen_sq_replace. now rewrite bridge_sq__replace. Qed.
 
 Lemma upserts_loop : forall (body : sqstate -> event -> sqstate * res unit) b,
-  (forall c e, body c e = match gen_sq_replace c b (eid e) e with
+  (forall c e, body c e = match gen_sq__replace c b (eid e) e with
                           | (c', Ok _) => (c', Ok tt)
                           | (c', Err k) => (c', Err k)
                           | (c', OutOfFuel) => (c', OutOfFuel)
@@ -74,7 +79,7 @@ Lemma upserts_loop : forall (body : sqstate -> event -> sqstate * res unit) b,
 Proof.
   intros body b Hb. induction es as [|e t IH]; intros c; [reflexivity|].
   cbn [filter sq_upserts]. destruct (eid e) as [i|] eqn:E; cbn [negb]; [|apply IH].
-  cbn [sq_for]. rewrite Hb, E, bridge_sq_replace. apply IH.
+  cbn [sq_for]. rewrite Hb, E, bridge_sq__replace. apply IH.
 Qed.
 
 Lemma executemany_loop : forall b es c,
